@@ -235,7 +235,12 @@ def run_case(ctx, rng, c, workdir):
     own_label = carts.random_bytes(rng, 8192) if rng.random() < 0.4 else None
     if own_label is not None:
         ctx.feature('cart_has_label_of_its_own')
-    g = carts.make_game(regions, code=code, version=version, label=own_label)
+    try:
+        g = carts.make_game(regions, code=code, version=version, label=own_label)
+    except Exception as e:
+        # (the code reaches the library in one piece here, as it does when it comes out of a .p8.png; every generated class lexes)
+        ctx.violation('making the cart object from its code (one chunk) raised %r' % (e,), case)
+        return
     if version != 0 and rng.random() < 0.25:
         # the cart's version and the version its code object was made for are independent attributes (code taken over from another
         # cart, as `build --lua` does; a .p8 without Lua section keeps the default code object): the file carries the cart's version
@@ -363,6 +368,10 @@ def run_case(ctx, rng, c, workdir):
         ref = rc.read_p8png(data, strict=False)
         if len(label_rows) != rc.CART_H or len(label_rows[0]) != rc.CART_W * 4:
             ctx.feature('label_source_of_another_size')
+        if rc.png_trailing_bytes(data):
+            # (an existing destination may be much longer than what replaces it: a picture of twice the size, a picture of noise)
+            raise rc.FormatError('%d bytes follow the IEND chunk (the file that was at the destination before had %s bytes)' % (
+                rc.png_trailing_bytes(data), len(before) if before is not None else 'no'))
     except rc.FormatError as e:
         ctx.violation('written file is not a valid cart PNG: %s' % e, case, key=classify(code, version, 'invalid', None))
         return
